@@ -257,13 +257,16 @@ TRANS = [[], [], ["root_attach"], ["negra_mark_heads", "boyd_split", "raising"],
 
 
 @st.composite
-def job_strategy(draw, kinds=("transform", "transform", "grammar", "analysis", "transitions"), trees=None, wide=False, indexed=False):
+def job_strategy(draw, kinds=("transform", "transform", "grammar", "analysis", "transitions"), trees=None, wide=False, indexed=False, gflabels=False):
     kind = draw(st.sampled_from(kinds))
     src_fmt = draw(st.sampled_from(["export", "export", "tigerxml", "discobrackets", "brackets"]))
     if kind == "transitions" and draw(st.booleans()):
         src_fmt = "brackets"
     cont = src_fmt == "brackets" or (kind == "transitions")
     labels = st.sampled_from(["S", "NP-1", "VP=2", "NP-SBJ-1", "NP"]) if indexed else st.sampled_from(["S", "NP", "VP"])
+    if gflabels:
+        labels = st.sampled_from(["S", "NP-SB", "VP#HD", "NP#OA-MO", "PP"])
+        src_fmt = draw(st.sampled_from(["export", "tigerxml", "discobrackets"]))
     tree = S.tree_model(max_tokens=7 if wide else 6, min_tokens=4 if wide else 1, disc=0.0 if cont else 0.5,
                         words=st.sampled_from(["a", "b", ",", ".", "Haus", "ä", "-LRB-"]), max_arity=5 if wide else 4,
                         labels=labels, pos=st.sampled_from(["NN", "VB", "$,"]), edges=st.sampled_from(["HD", "NK", "--"]))
@@ -318,6 +321,16 @@ def history_case(draw, max_jobs):
             g["gramtype"] = draw(st.sampled_from(["leftright", "optimal"]))
             g.pop("markov", None)
             jobs.append(g)
+    elif bias == 2:
+        # the same labels read with gf_split under two different separators
+        base = draw(job_strategy(kinds=("transform",), gflabels=True))
+        base["trans"] = []
+        base.pop("termfile", None)
+        base.pop("params", None)
+        base["dest_fmt"] = "export"
+        base["dest_opts"] = ["gf"]
+        jobs.insert(0, dict(base, src_opts=["gf_split"]))
+        jobs.append(dict(base, src_opts=["gf_split", "gf_separator:#"]))
     elif bias == 1:
         # the same indexed labels processed with and without keepcoindex
         base = draw(job_strategy(kinds=("transform",), indexed=True))
@@ -399,3 +412,183 @@ def gen_concat(ctx):
 UNITS = [Unit("history", gen_history, check_history, shards=(10, 16)),
          Unit("concat", gen_concat, check_concat, shards=(3, 8)),
          Unit("hashseed", gen_hashseed, check_hashseed, shards=(3, 8))]
+
+
+# ----------------------------------------------------------------------------------------------- API-level interleaving
+
+def check_interleave(case):
+    """Two or three independent pipelines (reader -> transformations -> writer + grammar extraction) are executed once one
+    after the other and once interleaved tree by tree according to a drawn schedule, in this process; every pipeline's
+    outputs must be the same."""
+    import contextlib
+    import io
+    from vlib.repo import treeinput, treeoutput, transform, grammar
+    from vlib.runner import call
+    workdir = tempfile.mkdtemp(prefix="c18i_")
+    try:
+        streams = []
+        for i, spec in enumerate(case["streams"]):
+            src = os.path.join(workdir, "s%d.%s" % (i, spec["src_fmt"]))
+            write_input(src, spec["src_fmt"], spec["trees"])
+            params = {"quiet": True}
+            if spec.get("termfile") is not None:
+                tf = os.path.join(workdir, "terms_%d_%d.txt" % (os.getpid(), i))
+                with open(tf, "w", encoding="utf-8") as stream:
+                    for line in spec["termfile"]:
+                        stream.write("\t".join(str(x) for x in line) + "\n")
+                params["terminalfile"] = tf
+            streams.append((spec, src, params))
+
+        def open_reader(spec, src):
+            return getattr(treeinput, spec["src_fmt"])(src, "utf-8", quiet=True)
+
+        def step(spec, params, tree, out, gram, lex):
+            for name in spec["trans"]:
+                tree = call("C18/interleave/" + name, getattr(transform, name), tree, **params)
+            call("C18/interleave/extract", grammar.extract, tree, gram, lex)
+            call("C18/interleave/" + spec["dest_fmt"], getattr(treeoutput, spec["dest_fmt"]), tree, out)
+
+        def run(schedule):
+            outs = [io.StringIO() for _ in streams]
+            grams = [({}, {}) for _ in streams]
+            readers = [open_reader(spec, src) for spec, src, _p in streams]
+            with contextlib.redirect_stdout(io.StringIO()), contextlib.redirect_stderr(io.StringIO()):
+                for idx in schedule:
+                    spec, _src, params = streams[idx]
+                    try:
+                        tree = next(readers[idx])
+                    except StopIteration:
+                        continue
+                    step(spec, params, tree, outs[idx], grams[idx][0], grams[idx][1])
+                for idx, reader in enumerate(readers):     # drain what the schedule left
+                    spec, _src, params = streams[idx]
+                    for tree in reader:
+                        step(spec, params, tree, outs[idx], grams[idx][0], grams[idx][1])
+            return [(o.getvalue(), g, {w: dict(c) for w, c in l.items()}) for o, (g, l) in zip(outs, grams)]
+
+        sequential = call("C18/interleave/sequential", run, [i for i, (spec, _s, _p) in enumerate(streams) for _ in spec["trees"]])
+        mixed = call("C18/interleave/interleaved", run, [s % len(streams) for s in case["schedule"]])
+        for i, (a, b) in enumerate(zip(sequential, mixed)):
+            if a != b:
+                what = "written text" if a[0] != b[0] else ("grammar" if a[1] != b[1] else "lexicon")
+                raise violation("C18/interleave/differs", "pipeline %d (%r) gives a different %s when its trees are processed interleaved with %r"
+                                % (i, describe(case["streams"][i]), what, [describe(s) for j, s in enumerate(case["streams"]) if j != i]))
+    finally:
+        shutil.rmtree(workdir, ignore_errors=True)
+    return True
+
+
+@st.composite
+def interleave_case(draw):
+    streams = []
+    for _ in range(draw(st.integers(2, 3))):
+        job = draw(job_strategy(kinds=("transform",)))
+        job.setdefault("trans", [])
+        job["trans"] = [t for t in job["trans"] if t != "punctuation_delete"]
+        if job["dest_fmt"] == "terminals":
+            job["dest_fmt"] = "export"
+        job.pop("dest_opts", None)
+        streams.append(job)
+    return {"streams": streams, "schedule": draw(st.lists(st.integers(0, 5), min_size=2, max_size=12))}
+
+
+def gen_interleave(ctx):
+    quick = ctx.tier == "quick"
+
+    def body(case):
+        check_interleave(case)
+        two_tf = len([s for s in case["streams"] if s.get("termfile")]) >= 2
+        ctx.count(key=case, nontrivial=True, classes=["interleave:streams=%d" % len(case["streams"])] + (["interleave:two-terminal-files"] if two_tf else []))
+    ctx.hyp(interleave_case(), body, max_examples=150 if quick else 1500)
+
+
+UNITS.append(Unit("interleave", gen_interleave, check_interleave, shards=(2, 8)))
+
+
+# ----------------------------------------------------------------------------------------------- concatenation, API level (cheap, many cases)
+
+def check_concat_api(case):
+    """output(A+B) = output(A) ++ output(B) / sum, through the API in this process (grammar types, writers, statistics)"""
+    import contextlib
+    import io
+    from vlib.repo import T, treeoutput, grammar, treeanalysis, transitions as TR, transform
+    from vlib.runner import call
+    from checks.C07 import REORD
+    a, b = case["a"], case["b"]
+
+    def extract(bank):
+        gram, lex = {}, {}
+        for tree in bank:
+            call("C18/concat-api/extract", grammar.extract, M.build(tree, T), gram, lex)
+        return gram, lex
+
+    def flat(gram):
+        return Counter({(f, l, v): c for f in gram for l in gram[f] for v, c in gram[f][l].items()})
+
+    ga, la = extract(a)
+    gb, lb = extract(b)
+    gab, lab = extract(a + b)
+    if flat(ga) + flat(gb) != flat(gab):
+        diff = [(k, flat(ga).get(k, 0) + flat(gb).get(k, 0), flat(gab).get(k, 0)) for k in set(flat(ga)) | set(flat(gb)) | set(flat(gab))
+                if flat(ga).get(k, 0) + flat(gb).get(k, 0) != flat(gab).get(k, 0)]
+        raise violation("C18/concat-api/treebank-grammar", "rule, count(A)+count(B), count(A+B): %r" % (diff[:2],))
+    merged = Counter()
+    for lex in (la, lb):
+        for word, tags in lex.items():
+            for tag, cnt in tags.items():
+                merged[(word, tag)] += cnt
+    if merged != Counter({(w, t): c for w, tags in lab.items() for t, c in tags.items()}):
+        raise violation("C18/concat-api/lexicon", "lexicon(A+B) is not the sum")
+    opts = {"v": case["v"], "h": case["h"]}
+    if case["nofanout"]:
+        opts["nofanout"] = True
+    reord = REORD[case["reordering"]]
+    ba = call("C18/concat-api/binarize", grammar.binarize, ga, reordering=reord, markov_opts=dict(opts))
+    bb = call("C18/concat-api/binarize", grammar.binarize, gb, reordering=reord, markov_opts=dict(opts))
+    bab = call("C18/concat-api/binarize", grammar.binarize, gab, reordering=reord, markov_opts=dict(opts))
+    if flat(ba) + flat(bb) != flat(bab):
+        raise violation("C18/concat-api/markov-grammar", "Markovized grammar (v=%d h=%d nofanout=%r %s) of A+B is not the sum of the parts"
+                        % (case["v"], case["h"], case["nofanout"], case["reordering"]))
+    # writers and statistics
+    def written(bank, fmt):
+        out = io.StringIO()
+        with contextlib.redirect_stderr(io.StringIO()), contextlib.redirect_stdout(io.StringIO()):
+            for tree in bank:
+                call("C18/concat-api/" + fmt, getattr(treeoutput, fmt), M.build(tree, T), out)
+        return out.getvalue()
+    for fmt in ("export", "discobrackets", "tigerxml", "terminals"):
+        if written(a, fmt) + written(b, fmt) != written(a + b, fmt):
+            raise violation("C18/concat-api/writer", "%s output of A+B is not the concatenation" % fmt)
+
+    def stats(bank):
+        inst = treeanalysis.GapDegree()
+        for tree in bank:
+            call("C18/concat-api/GapDegree", inst.run, M.build(tree, T))
+        return Counter(inst.gaps_per_tree), Counter(inst.gaps_per_node)
+    sa, sb, sab = stats(a), stats(b), stats(a + b)
+    if (sa[0] + sb[0], sa[1] + sb[1]) != sab:
+        raise violation("C18/concat-api/statistics", "GapDegree counters of A+B are not the sums")
+    return True
+
+
+def gen_concat_api(ctx):
+    from checks.C06 import treebank
+    quick = ctx.tier == "quick"
+
+    @st.composite
+    def cases(draw):
+        bank = treebank(7 if quick else 10, 4)
+        a = draw(bank)
+        b = draw(bank)
+        if draw(st.booleans()):
+            b = b + [a[0]]          # shared material between A and B
+        return {"a": a, "b": b, "v": draw(st.integers(0, 3)), "h": draw(st.integers(0, 3)), "nofanout": draw(st.booleans()),
+                "reordering": draw(st.sampled_from(["none", "optimal"]))}
+
+    def body(case):
+        check_concat_api(case)
+        ctx.count(key=case, nontrivial=True, classes=["concat-api"])
+    ctx.hyp(cases(), body, max_examples=250 if quick else 2500)
+
+
+UNITS.append(Unit("concat_api", gen_concat_api, check_concat_api, shards=(2, 8)))
